@@ -102,7 +102,7 @@ def run(ctx):
                             "model outcome kind, first rule); non-trivial = not accepted")
     ctx.assumptions += ["ANTLR error recovery is not modelled: outside the grammar the model predicts only 'positioned diagnostics'",
                         "CPython recursion limit is part of the trusted base (nesting bound 60 in the deep stream)"]
-    n = ctx.n(1500, 20000)
+    n = ctx.n(3000, 30000)
     todo = []
     for i in range(n):
         r = random.Random(f"{ctx.seed}/c06/{i}")
@@ -172,7 +172,10 @@ def run(ctx):
                            {"input": {"files": files, "root": t["root"]}, "bad": bad[:3]})
         # ---- correspondence ------------------------------------------------------------------
         if mo[0] == "syntax":
-            if impl["kind"] != "diags" or not any(d["cls"] == "ParsingException" for d in impl["diags"]):
+            # outside the grammar the model only predicts "the tool's own diagnostics": a diagnostic list with a syntax
+            # error, or a bare application diagnostic raised while visiting the recovered tree (e.g. a duplicate type)
+            own = (impl["kind"] == "diags" and any(d["cls"] == "ParsingException" for d in impl["diags"])) or impl["kind"] == "raised"
+            if not own:
                 breaks.append({"files": files, "why": "model: outside the grammar; implementation: " + impl["kind"], "impl": strip(impl)})
         elif mo != io:
             breaks.append({"files": files, "why": "outcome differs", "model": m, "impl": strip(impl)})
